@@ -622,7 +622,9 @@ def run_life(seed, role, cause, point, blocked_consumer, restart=True, hook=None
         elif cause == "dpr":
             n.feed(n.make("DPR", True, 2).dump())
             if point == "closing":
-                # simultaneous disconnect: the peer also answers the DPR it has received (Closing drops anything but the DPA)
+                # simultaneous disconnect: the peer also answers the DPR it has received (Closing drops anything but the DPA);
+                # it can only answer once the DPR has actually been written
+                sc.run(until=lambda: any(n.classify(m) == "DPR" for m in frames_of(n)), limit=8000)
                 dprs = [m for m in frames_of(n) if n.classify(m) == "DPR"]
                 if dprs:
                     dpa = n.make("DPA", True, 1)
